@@ -1214,6 +1214,8 @@ pub fn text_patterns() -> Vec<Vec<u8>> {
     let mut v: Vec<Vec<u8>> = [
         "a.", ".a", ".", "..", "a..b", "A.B", "Www.Example.COM", "www.example.com.", " a", "a ", "a\t", "a\n", "a\r\n", "a\0", "\0", "a\0b", "xn--bcher-kva.example",
         "*.example.com", "*", "::1", "10.0.0.1", "192.168.1.10", "2001:db8::1", "1.2.3.4.", "256.1.1.1", "1.2.3", "0.0.0.0", "255.255.255.255", "::", "fe80::1%eth0", "h2", "H2", "http/1.1", "HTTP/1.1", "localhost", "127.0.0.1", "[::1]", "a,b", "a;b", "a/b", "a\\b", "\"a\"", "%41", "a%00",
+        // what ends up in a name when a URL or an address is pasted: port, userinfo, scheme, path, query, fragment, brackets
+        "example.com:8443", "a.b:1", "a.b:0", "a.b:65535", "a.b:65536", "a.b:", ":80", "a.b:80:80", "a.b:8a", "[::1]:443", "[2001:db8::1]:8443", "*.a.b:443", "user@example.com", "user:pw@a.b", "http://a.b", "https://a.b/", "a.b/path", "a.b?x=1", "a.b#f", "a.b:443/", "//a.b", "a.b.", "a.b..", "_srv._tcp.a.b", "a-.b", "-a.b", "a_b.c", "1.2.3.4:80", "0x7f.1", "017.0.0.1", "example.com\u{0}:80", "EXAMPLE.COM:443", "a.b :80", "a.b: 80",
     ]
     .iter()
     .map(|s| s.as_bytes().to_vec())
